@@ -44,7 +44,7 @@ def handle (j : Json) : Except String Json := do
   let sols ← match j.getObjVal? "sols" with | .ok s => solsOfJson s | .error _ => pure []
   let order ← match j.getObjVal? "order" with | .ok o => natList o | .error _ => pure []
   let doBrute := match j.getObjVal? "brute" with | .ok (.bool b) => b | _ => false
-  let fill := match j.getObjVal? "fill" with | .ok (.bool b) => b | _ => false
+  let fill := match j.getObjVal? "fill" with | .ok (.bool b) => b | _ => true
   let exactInt := match j.getObjVal? "exact_int" with | .ok (.bool b) => b | _ => false
   let br {α : Type} (f : α → Json) (run : Bool → Except Err (List α)) (allS : Bool) : Json :=
     if doBrute then res (listJson f) (run allS) else Json.null
